@@ -411,18 +411,18 @@ def r6_group_and_merge(ctx):
     rets = [n for n in astx.walk_own(f.node) if isinstance(n, ast.Return)]
     kw = {k.arg: astx.u(k.value) for k in rets[0].value.keywords} if rets and isinstance(rets[0].value, ast.Call) else {}
     good = astx.u(defs.get("ranking")) == f"{bl}[0].ranking" and kw.get("ranking") == "ranking" and kw.get("weight") in ("Fraction(weight)", "weight") \
-        and astx.u(defs.get("weight")) == f"sum((b.weight for b in {bl}))" and kw.get("voter_set") == "voter_set"
+        and astx.u(defs.get("weight")) == astx.A(f"sum((b.weight for b in {bl}))") and kw.get("voter_set") == "voter_set"
     ctx.check(good, f, rets[0] if rets else f.node, "merge_ballots: one ballot with the shared ranking, the summed weight and the united voter sets", str(kw), f"merge_ballots returns Ballot({kw})")
     vs = [n for n in astx.walk_own(f.node) if isinstance(n, ast.Call) and astx.u(n.func) == "reduce"]
     ctx.check(len(vs) == 1 and "union" in astx.u(vs[0].args[0]) and astx.u(vs[0].args[1]) == "voters_to_merge" and
-              astx.u(defs.get("voters_to_merge")) == f"[b.voter_set for b in {bl} if b.voter_set]", f, vs[0] if vs else f.node, "merge_ballots: voter sets are united over all merged ballots", "",
+              astx.u(defs.get("voters_to_merge")) == astx.A(f"[b.voter_set for b in {bl} if b.voter_set]"), f, vs[0] if vs else f.node, "merge_ballots: voter sets are united over all merged ballots", "",
               "voter-set union changed")
     for name, src in (("clean_profile", "cleaned"), ("remove_noncands", "cleaned")):
         f = prog.find_func(name)
         gb = astx.unique_def(f.node, "grouped_ballots")
         nb = astx.unique_def(f.node, "new_ballots")
-        good = isinstance(gb, ast.ListComp) and astx.u(gb.elt) == "list(result)" and astx.u(gb.generators[0].iter) == f"groupby({src}, key=lambda ballot: ballot.ranking)" and not gb.generators[0].ifs \
-            and nb is not None and astx.u(nb) == "tuple([merge_ballots(b) for b in grouped_ballots])"
+        good = isinstance(gb, ast.ListComp) and astx.u(gb.elt) == "list(result)" and astx.u(gb.generators[0].iter) == astx.A(f"groupby({src}, key=lambda ballot: ballot.ranking)") and not gb.generators[0].ifs \
+            and nb is not None and astx.u(nb) == astx.A("tuple([merge_ballots(b) for b in grouped_ballots])")
         rets = [n for n in astx.walk_own(f.node) if isinstance(n, ast.Return)]
         good = good and len(rets) == 1 and astx.u(rets[0].value) == "PreferenceProfile(ballots=new_ballots)"
         ctx.check(good, f, gb or f.node, f"{name}: every run of equal rankings is merged into one ballot, no group dropped", "", f"{name}: grouping / merging pipeline changed")
